@@ -242,7 +242,8 @@ Section CompAll.
   Definition K_fields (fs : fields) : Prop := forall prev, safe_fields fs prev = true -> lp_fields fs = true ->
     forall pa rs rd s tr s' vals, R rs rd -> relp prev rd -> wf_st s -> Forall isbyte (inp s) ->
     dec_fields T true fs pa rd s = (tr, s', Ok vals) ->
-    exists kids, sp_fields T fs pa rs (inp s) = Some (kids, inp s') /\ shape tr (flat_map items_of kids) /\ forallb all_valid kids = true.
+    exists kids, sp_fields T fs pa rs (inp s) = Some (kids, inp s') /\ shape tr (flat_map items_of kids) /\ forallb all_valid kids = true /\
+                 R (rev (map kid_info kids) ++ rs) vals.
   Definition K_armp (p : armp) : Prop := match p with PNone => True | PTy t => K_ty T t | PList e _ => K_ty T e end.
   Definition armp_lp (p : armp) : bool := match p with PNone => true | PTy t => lp_ty t | PList e _ => reads1 e && lp_ty e end.
   Definition K_arms (ar : arms) : Prop := forall uname pa target p s tr s' a, arm_at ar target = Some p -> armp_safe p = true -> armp_lp p = true ->
@@ -281,7 +282,7 @@ Section CompAll.
       destruct (bind_inv _ _ _ _ _ _ _ _ E) as (tr1 & s1 & o1 & E1 & R1). injection E1 as <- <- <-. destruct R1 as (tr2 & E2 & ->).
       destruct (bind_inv _ _ _ _ _ _ _ _ E2) as (tr3 & s3 & o3 & E3 & R3).
       destruct o3 as [vals|ee| |kk|]; try (destruct R3 as [R3 _]; discriminate). destruct R3 as (tr4 & E4 & ->). injection E4 as <- <- <-.
-      destruct (IH [] Hs Hl pa [] [] s tr3 s3 vals ltac:(constructor) ltac:(constructor) W Hb E3) as (kids & Hk & Sh & AV).
+      destruct (IH [] Hs Hl pa [] [] s tr3 s3 vals ltac:(constructor) ltac:(constructor) W Hb E3) as (kids & Hk & Sh & AV & _).
       exists (SNode pa (TyN name) kids). rewrite sp_ty_struct. cbn [andb]. rewrite Hk. split; [reflexivity|]. rewrite app_nil_r.
       split; [cbn [items_of]; apply (sh_node pa (TyN name)); exact Sh|]. split; [exact AV|reflexivity].
     - (* TTpm2bList *)
@@ -378,7 +379,8 @@ Section CompAll.
       + destruct (bind_inv _ _ _ _ _ _ _ _ E2) as (? & ? & o & _ & Rr). destruct o; try (destruct Rr as [Rr _]; discriminate).
         destruct Rr as (? & Er & _). injection Er as _ _ <-. reflexivity.
     - (* FNil *)
-      intros prev _ _ pa rs rd s tr s' vals _ _ W _ E. cbn [dec_fields] in E. injection E as <- <- _. exists []. repeat split. constructor.
+      intros prev _ _ pa rs rd s tr s' vals HR _ W _ E. cbn [dec_fields] in E. injection E as <- <- <-. exists [].
+      split; [reflexivity|]. split; [constructor|]. split; [reflexivity|exact HR].
     - (* FPlain *)
       intros n t IHt r IHr prev Hs Hl pa rs rd s tr s' vals HR HP W Hb E. cbn [safe_fields lp_fields] in Hs, Hl.
       apply andb_prop in Hs as [Hs Hr]. apply andb_prop in Hs as [Hn Ht]. apply andb_prop in Hl as [Hlt Hlr].
@@ -386,14 +388,15 @@ Section CompAll.
       destruct o1 as [v|ee| |kk|]; try (destruct R1 as [R1 _]; discriminate). destruct R1 as (tr2 & E2 & ->).
       destruct (IHt Ht Hlt (pchild pa n) None s tr1 s1 v W Hb E1) as (sv & Hsv & Sh1 & AV1 & Hv).
       pose proof (proj1 (inv_all T) t Ht (pchild pa n) None s W Hb _ _ _ E1) as [C1 Hshape].
-      destruct (IHr _ Hr Hlr pa ((n, match sv with SPrim _ p z => Some (pname p, z) | _ => None end) :: rs) ((n, v) :: rd) s1 tr2 s' vals) as (kids & Hk & Sh2 & AV2).
+      destruct (IHr _ Hr Hlr pa ((n, match sv with SPrim _ p z => Some (pname p, z) | _ => None end) :: rs) ((n, v) :: rd) s1 tr2 s' vals) as (kids & Hk & Sh2 & AV2 & HR2).
       + constructor; [|exact HR]. split; [reflexivity|]. cbn [snd]. destruct sv; cbn [val_ok] in Hv; exact Hv.
       + constructor; [|exact HP]. cbn [fst snd]. split; [reflexivity|]. destruct t; try exact Logic.I. exact Hshape.
       + exact (chb_wf _ _ _ C1).
       + apply (proj2 C1), Hb.
       + exact E2.
       + exists (sv :: kids). rewrite sp_fields_plain, Hsv, (chk_ok _ _ _ (acc_len _ _ _ _ _ _ (acc_ty' T t _ None false) E1)). cbv zeta. rewrite Hk.
-        split; [reflexivity|]. split; [cbn [flat_map]; apply shape_app; assumption|]. cbn [forallb]. rewrite AV1, AV2. reflexivity.
+        split; [reflexivity|]. split; [cbn [flat_map]; apply shape_app; assumption|]. split; [cbn [forallb]; rewrite AV1, AV2; reflexivity|].
+        apply R_snoc_kid. rewrite (kid_info_at sv pa n (sp_ty_path T _ _ _ _ _ _ _ Hsv)). exact HR2.
     - (* FList *)
       intros n e IHe r IHr prev Hs Hl pa rs rd s tr s' vals HR HP W Hb E. cbn [safe_fields lp_fields] in Hs, Hl.
       destruct prev as [|[cn [p0|]] prev']; try discriminate.
@@ -406,14 +409,19 @@ Section CompAll.
       destruct o1 as [v|ee| |kk|]; try (destruct R1 as [R1 _]; discriminate). destruct R1 as (tr2 & E2 & ->).
       destruct (array_complete T e (list_id e) (pchild pa n) z s tr1 s1 v IHe He Hle W Hb (array_count_le T e _ _ _ _ _ _ _ Hre E1) E1)
         as (lv & Hlv & Sh1 & AV1 & Hat & C1).
-      destruct (IHr _ Hr Hlr pa ((n, None) :: (cn2, Some (pname p0, z)) :: rs') ((n, v) :: (cn', Some (VInt_ (pname p0) z)) :: rd') s1 tr2 s' vals) as (kids & Hk & Sh2 & AV2).
+      destruct (IHr _ Hr Hlr pa ((n, None) :: (cn2, Some (pname p0, z)) :: rs') ((n, v) :: (cn', Some (VInt_ (pname p0) z)) :: rd') s1 tr2 s' vals) as (kids & Hk & Sh2 & AV2 & HR2).
       + constructor; [split; [reflexivity|exact Hat]|exact HR].
       + constructor; [split; [reflexivity|exact Logic.I]|exact HP].
       + exact (chb_wf _ _ _ C1).
       + apply (proj2 C1), Hb.
       + exact E2.
       + exists (lv :: kids). rewrite sp_fields_list, Hlv, (chk_ok _ _ _ (acc_len _ _ _ _ _ _ (acc_array T _ _ _ e) E1)), Hk.
-        split; [reflexivity|]. split; [cbn [flat_map]; apply shape_app; assumption|]. cbn [forallb]. rewrite AV1, AV2. reflexivity.
+        split; [reflexivity|]. split; [cbn [flat_map]; apply shape_app; assumption|]. split; [cbn [forallb]; rewrite AV1, AV2; reflexivity|].
+        apply R_snoc_kid.
+        assert (Hki : kid_info lv = (n, None)).
+        { unfold sp_counted in Hlv. destruct (_ <? z); [discriminate|]. destruct (sp_elems _ _ _ _ _) as [[es re]|]; [|discriminate]. injection Hlv as <- _.
+          unfold kid_info. cbn [sv_path]. rewrite last_name_child. reflexivity. }
+        rewrite Hki. exact HR2.
     - (* FUnion *)
       intros n seln u IHu r IHr prev Hs Hl pa rs rd s tr s' vals HR HP W Hb E. cbn [safe_fields lp_fields] in Hs, Hl.
       destruct (lookupS seln prev) as [[p0|]|] eqn:Lk; try discriminate.
@@ -424,14 +432,15 @@ Section CompAll.
       destruct o1 as [v|ee| |kk|]; try (destruct R1 as [R1 _]; discriminate). destruct R1 as (tr2 & E2 & ->).
       destruct (IHu Hu Hlu (pchild pa n) (Some (pname p0, z)) s tr1 s1 v W Hb E1) as (sv & Hsv & Sh1 & AV1 & Hv).
       pose proof (proj1 (inv_all T) u Hu (pchild pa n) (Some (pname p0, z)) s W Hb _ _ _ E1) as [C1 _].
-      destruct (IHr _ Hr Hlr pa ((n, match sv with SPrim _ p z => Some (pname p, z) | _ => None end) :: rs) ((n, v) :: rd) s1 tr2 s' vals) as (kids & Hk & Sh2 & AV2).
+      destruct (IHr _ Hr Hlr pa ((n, match sv with SPrim _ p z => Some (pname p, z) | _ => None end) :: rs) ((n, v) :: rd) s1 tr2 s' vals) as (kids & Hk & Sh2 & AV2 & HR2).
       + constructor; [|exact HR]. split; [reflexivity|]. cbn [snd]. destruct sv; cbn [val_ok] in Hv; exact Hv.
       + constructor; [split; [reflexivity|exact Logic.I]|exact HP].
       + exact (chb_wf _ _ _ C1).
       + apply (proj2 C1), Hb.
       + exact E2.
       + exists (sv :: kids). rewrite sp_fields_union, (R_lookup_rev _ _ _ _ _ HR Lz eq_refl), Hsv, (chk_ok _ _ _ (acc_len _ _ _ _ _ _ (acc_ty' T u _ _ false) E1)). cbv zeta. rewrite Hk.
-        split; [reflexivity|]. split; [cbn [flat_map]; apply shape_app; assumption|]. cbn [forallb]. rewrite AV1, AV2. reflexivity.
+        split; [reflexivity|]. split; [cbn [flat_map]; apply shape_app; assumption|]. split; [cbn [forallb]; rewrite AV1, AV2; reflexivity|].
+        apply R_snoc_kid. rewrite (kid_info_at sv pa n (sp_ty_path T _ _ _ _ _ _ _ Hsv)). exact HR2.
     - (* ANil *) intros uname pa target p s tr s' a H. discriminate.
     - (* ACons *)
       intros n key p IHp r IHr uname pa target p1 s tr s' a Hat Hp Hlp W Hb E. rewrite dec_arms_cons in E. rewrite sp_arms_cons. cbn [arm_at] in Hat.
@@ -454,5 +463,20 @@ Section CompAll.
     - exact Logic.I.
     - intros t IH. exact IH.
     - intros e IH n. exact IH.
+  Qed.
+
+  (** the by-product value of a completed structure decode against the specification's reading *)
+  Lemma struct_complete name isp fs pa sel s tr s' a : safe_ty (TStruct name isp fs) = true -> lp_ty (TStruct name isp fs) = true ->
+    wf_st s -> Forall isbyte (inp s) -> dec_ty T true (TStruct name isp fs) pa sel false s = (tr, s', Ok a) ->
+    exists v, sp_ty T (TStruct name isp fs) pa sel false (inp s) = Some (v, inp s') /\ shape tr (items_of v) /\ all_valid v = true /\ struct_post v a.
+  Proof.
+    intros Hs Hl W Hb E. cbn [safe_ty lp_ty] in Hs, Hl. rewrite dec_ty_struct in E. cbn [andb] in E. cbv zeta in E.
+    destruct (bind_inv _ _ _ _ _ _ _ _ E) as (tr1 & s1 & o1 & E1 & R1). injection E1 as <- <- <-. destruct R1 as (tr2 & E2 & ->).
+    destruct (bind_inv _ _ _ _ _ _ _ _ E2) as (tr3 & s3 & o3 & E3 & R3).
+    destruct o3 as [vals|ee| |kk|]; try (destruct R3 as [R3 _]; discriminate). destruct R3 as (tr4 & E4 & ->). injection E4 as <- <- <-.
+    destruct (proj1 (proj2 comp_all) fs [] Hs Hl pa [] [] s tr3 s3 vals ltac:(constructor) ltac:(constructor) W Hb E3) as (kids & Hk & Sh & AV & HR).
+    exists (SNode pa (TyN name) kids). rewrite sp_ty_struct. cbn [andb]. rewrite Hk. split; [reflexivity|]. rewrite app_nil_r.
+    split; [cbn [items_of]; apply (sh_node pa (TyN name)); exact Sh|]. split; [exact AV|]. cbn [struct_post]. exists vals. split; [reflexivity|].
+    rewrite app_nil_r in HR. exact HR.
   Qed.
 End CompAll.
